@@ -23,7 +23,7 @@ func init() {
 		ID:      "C16",
 		Level:   "exploration",
 		Workers: 16,
-		Rule: "request mutation over the real service: valid requests captured from correct clients in all states (due-to-create, due-to-subscribe, subscribed with and without pending operations) are mutated in one to three fields - unknown / foreign / empty / swapped DUID, unknown or empty key, wrong type, every combination of the seven option bits (read-only with and without operations, snapshot, delete, unsubscribe, error), checkpoints stale / future / huge / zero / absent, absent header, operations without id, operation lists with gaps, repeats, reordering, foreign client id, other era, emptied, 500 operations; unregistered / foreign-collection / administrative / empty client id, unknown / other / empty collection, no packs, duplicated packs - plus correct requests with a panic injected inside their handler's goroutine between lock acquisition and commit (hook pp.before-commit: the recovery path must answer, keep the process alive and release the key; also for ONE of the two handlers of a two-pack message, which must still be answered with both packs), plus ClientMessage, PatchMessage (invalid JSON, non-object JSON, key of another type, unknown collection), CollectionMessage and EncodingMessage (no operation, unknown operation type, undecodable body, missing id) variants. Monitors: every call is answered (watchdog classification: a handler that ended without replying is a hang; a call that returns neither a response nor an error is not an answer), a server panic is a violation, refused (RPC error or error-bit pack) => store diff empty (volatile timestamps ignored); after every hostile request a canary client syncs the same key and another key and must be answered; after an ACCEPTED hostile request the stored log must still satisfy the structural invariants of C06 (gapless up to the recorded end, nobody acknowledged beyond what is stored). One case in 150 runs the repository's server binary as a child process: a push-pull is held at a database write, the process receives SIGTERM (graceful stop waits for the held request) and a REST request arriving meanwhile must be answered while the shutdown is pending. Client half: every error pack the server produced in the run and the five defined push-pull error codes are applied to a subscribed client: its error handler must be called, nothing may panic, and it must complete a normal sync of another datatype afterwards; every third case also runs the client half through the SDK's own sync path (Client.Sync() over real grpc): a lost response, a request refused at the RPC level and an error pack for one of two datatypes, in random order - after each the next Sync() must return (watchdog classification: waiting for the client's sync semaphore while no sync is under way is a hang) and succeed, the error pack must reach an error handler, and every issued operation ends up stored exactly once; " +
+		Rule: "request mutation over the real service: valid requests captured from correct clients in all states (due-to-create, due-to-subscribe, subscribed with and without pending operations) are mutated in one to three fields - unknown / foreign / empty / swapped DUID, unknown or empty key, wrong type, every combination of the seven option bits (read-only with and without operations, snapshot, delete, unsubscribe, error), checkpoints stale / future / huge / zero / absent, absent header, operations without id, operation lists with gaps, repeats, reordering, foreign client id, other era, emptied, 500 operations; unregistered / foreign-collection / administrative / empty client id, unknown / other / empty collection, no packs, duplicated packs - plus correct requests with a panic injected inside their handler's goroutine between lock acquisition and commit (hook pp.before-commit: the recovery path must answer, keep the process alive and release the key; also for ONE of the two handlers of a two-pack message, which must still be answered with both packs), plus ClientMessage, PatchMessage (invalid JSON, non-object JSON, key of another type, unknown collection), CollectionMessage and EncodingMessage (no operation, unknown operation type, undecodable body, missing id) variants. Monitors: every call is answered (watchdog classification: a handler that ended without replying is a hang; a call that returns neither a response nor an error is not an answer), a server panic is a violation, refused (RPC error or error-bit pack) => store diff empty (volatile timestamps ignored); after every hostile request a canary client syncs the same key and another key and must be answered; after an ACCEPTED hostile request the stored log must still satisfy the structural invariants of C06 (gapless up to the recorded end, nobody acknowledged beyond what is stored). One case in five ends with valid requests that are unusual only in size or repetition: one message of a correct client with 17-60 packs (creations, then a push on every datatype) must be answered pack for pack, the same client registers 40 more times, an existing collection is created 20 more times. One case in 150 runs the repository's server binary as a child process: a push-pull is held at a database write, the process receives SIGTERM (graceful stop waits for the held request) and a REST request arriving meanwhile must be answered while the shutdown is pending. Client half: every error pack the server produced in the run and the five defined push-pull error codes are applied to a subscribed client: its error handler must be called, nothing may panic, and it must complete a normal sync of another datatype afterwards; every third case also runs the client half through the SDK's own sync path (Client.Sync() over real grpc): a lost response, a request refused at the RPC level and an error pack for one of two datatypes, in random order - after each the next Sync() must return (watchdog classification: waiting for the client's sync semaphore while no sync is under way is a hang) and succeed, the error pack must reach an error handler, and every issued operation ends up stored exactly once; " +
 			"non-trivial = the request differs from any request a correct client could send (every mutated request); distinct = hash of the mutation script",
 		Assumptions: []string{
 			"only 'answered / not answered / crashed' and 'refused => unchanged' are verdicts; whatever a canary notices after an ACCEPTED hostile request (error pack, client-side panic) is recorded as a diagnostic",
@@ -741,6 +741,11 @@ func runC16(c *core.Case) *core.Result {
 	if pm != "" || ex.Out.Err != nil || ex.Out.Panic != "" || ex.Out.TimedOut || ex.Refused() {
 		return c.Violation("client-unusable-after-errors", "after receiving error packs the client cannot complete a normal sync of another datatype (rpc err %v, client panic %q)", ex.Out.Err, pm)
 	}
+	if c.Index%5 == 1 {
+		if res := c16BigMessage(c, w); res != nil {
+			return res
+		}
+	}
 	if c.Index%3 == 0 {
 		if res := c16SDKHalf(c, w); res != nil {
 			return res
@@ -748,6 +753,78 @@ func runC16(c *core.Case) *core.Result {
 	}
 	c.NonTrivial()
 	return c.Held()
+}
+
+// c16BigMessage: a perfectly valid request that is unusual only in size - ONE message of a
+// correct client with 17-60 packs (one datatype each), twice: first the creations, then a
+// push on every one of them. Both must be answered with a pack per datatype, every datatype
+// ends SUBSCRIBED with nothing left to push, and a canary sync is served afterwards.
+func c16BigMessage(c *core.Case, w *svcWorld) *core.Result {
+	r := c.Rng
+	n := 17 + r.Intn(44)
+	cl := w.b.NewClient("colA", "big")
+	var dts []*bed.DT
+	for i := 0; i < n; i++ {
+		d := cl.Open(fmt.Sprintf("big%d-%d", c.Index, i), "counter", bed.Create)
+		if d == nil {
+			return c.Inconclusive("open")
+		}
+		dts = append(dts, d)
+	}
+	if err := cl.Register(); err != nil {
+		return c.Inconclusive("register: %v", err)
+	}
+	for round := 0; round < 2; round++ {
+		c.Step("one message with %d packs (round %d)", n, round)
+		req := cl.BuildRequest()
+		ex := cl.Send(req)
+		if ex.Out.Panic != "" {
+			return c.Violation("server-panic:big-message", "a message with %d packs panicked: %s", n, ex.Out.Panic)
+		}
+		if ex.Out.TimedOut {
+			if ex.Out.Hang {
+				return c.Violation("no-answer:big-message", "a valid message with %d packs is never answered\n%s", n, clipDump(ex.Out.Dump))
+			}
+			return c.Violation("no-answer:big-message", "a valid message with %d packs was not answered within the request watchdog while the server side is not idle either", n)
+		}
+		if ex.Out.Err != nil {
+			return c.Violation("refused:big-message", "a valid message with %d packs was refused: %v", n, ex.Out.Err)
+		}
+		if len(ex.Resp.PushPullPacks) != n {
+			return c.Violation("packs-missing:big-message", "a message with %d packs was answered with %d packs", n, len(ex.Resp.PushPullPacks))
+		}
+		if pm := cl.Apply(ex.Resp); pm != "" {
+			return c.Violation("client-panic:big-message", "applying the answer panicked: %s", pm)
+		}
+		if !w.idle() {
+			return c.Inconclusive("idle")
+		}
+		for _, d := range dts {
+			if d.DT.GetState() != model.StateOfDatatype_SUBSCRIBED || len(d.W.CreatePushPullPack().Operations) > 0 {
+				return c.Violation("big-message-not-served", "after a message with %d packs datatype %s is in state %v with %d operations still pending", n, d.Key, d.DT.GetState(), len(d.W.CreatePushPullPack().Operations))
+			}
+			crdt.Apply(d.DT, crdt.Op{Kind: "inc", N: 1 + r.Intn(5)})
+		}
+	}
+	c.Count("big_messages_served", 2)
+	// the same valid request many times over: registrations of one client, creation of a
+	// collection that exists
+	for i := 0; i < 40; i++ {
+		if err := cl.Register(); err != nil {
+			return c.Violation("refused:repeated-registration", "registration %d of the same client was refused: %v", i+2, err)
+		}
+	}
+	for i := 0; i < 20; i++ {
+		out := bed.Guard(10e9, func(ctx context.Context) error {
+			_, err := w.b.Svc.CreateCollection(ctx, &model.CollectionMessage{Collection: "colA"})
+			return err
+		})
+		if out.Panic != "" || out.TimedOut || out.Err != nil {
+			return c.Violation("refused:repeated-create-collection", "creating a collection that exists, call %d: panic %q, timed out %v, error %v", i+1, out.Panic, out.TimedOut, out.Err)
+		}
+	}
+	c.Count("repeated_valid_requests", 60)
+	return nil
 }
 
 // c16SDKHalf: the client half through the SDK's own sync path (Client.Sync() over real grpc
